@@ -56,6 +56,12 @@ _mk("C07", "C07: one draw per object (outside loops, dominating the growth loop,
     "role-located loop, linear normal form of the exit comparison, reaching definitions of the loop-carried molecule, CFG dominance")
 _mk("C08", "C08: every rng.choice on the generation path passes p = vector / its own sum, candidates and weights gathered in lockstep, equal-weights rule guard, the 7 (phase, pool, filter) decision points, transition-list decoding, terminal transfer, weight == Σ transitions at every store. Molecule probabilities are NOT decided.",
     "provenance of the p= argument, def-chain inspection, classification of pick sites by pool/filter provenance, sibling-store pairing")
+_mk("C10", "C10: rng threaded through every call with an rng parameter and every SciPy rvs, no draw from global random state, no store reachable from ~85 entry points (generate, printers, graph builders, probability, typing, accessors) into constructor-established state of a parsed object (inter-procedural effect analysis with freshness labels; built-in positive example must fire), deep copies at the two MolGen descriptor stores and in the accessors.",
+    "inter-procedural effect (store) analysis with ownership/freshness labels over the resolved call graph, provenance of rng arguments, who-may-use census of the global generator")
+_mk("C13", "C13: both entry points test the system's generable before the first pick, loop law acc − system_mass < 0 by linear normal form, single accumulation of the yielded molecule's weight on every path, completeness guard dominating yield/return, membership by index space, rng forwarded.",
+    "CFG dominance, linear normal form of the loop test, reaching-definition identity of tested / accumulated / yielded molecule")
+_mk("C14", "C14 (one information-flow condition): the backward slice of the component pick's probability vector must contain a mass-aware source (violated today: known finding KF-1, System.generator), and independently must contain every component's declared share, normalised and index-aligned. Convergence itself is statistical and NOT decided.",
+    "backward slice (provenance) of the p= argument of the component pick")
 
 NOT_APPLICABLE = {}
 for _i in range(1, 21):
